@@ -79,7 +79,7 @@ Nd(par, k, nm, np, en, vs, ds, ps, x, sub, for) ==
    ps |-> ps, x |-> x, sub |-> sub, for |-> for]
 ENT == <<"T", "", "">>
 ENF == <<"F", "", "">>
-SubIds == {"s1", "s2", "s3", "s4", "s5"}
+SubIds == {"s1", "s2", "s3", "s4", "s5", "s6", "s7", "s8"}
 Subs ==
   [id \in SubIds |->
     CASE id = "s1" -> <<Nd(0, "agg", "s1", <<>>, ENT, <<>>, <<>>, FALSE, "none", "", <<>>),
@@ -98,6 +98,20 @@ Subs ==
       [] id = "s5" -> <<Nd(0, "agg", "s5", <<>>, ENT, <<<<"flag", "ref", "it">>>>, <<>>, FALSE, "none", "", <<>>),
                         Nd(1, "task", "sq", <<"it", "jt">>, ENT, <<>>, <<>>, FALSE, "cons", "",
                            <<[t |-> "be", s |-> "", b |-> 1, e |-> 2, bv |-> "", ev |-> "", x |-> "", var |-> "jt"]>>)>>
+      \* the ROOT role of the sub-workflow carries `enabled` itself: includerole.go replaces the include role's composed
+      \* aggregatorRole by the loaded root (r.aggregatorRole = *subWfRoot), whose enabled field is then evaluated at stage 0
+      \* of aggregatorRole.ProcessTemplates against the include role's environment - a sub-workflow whose root is disabled
+      \* disappears with everything in it.  literal false:
+      [] id = "s6" -> <<Nd(0, "agg", "s6", <<>>, ENF, <<>>, <<>>, FALSE, "none", "", <<>>),
+                        Nd(1, "task", "sf", <<>>, ENT, <<>>, <<>>, FALSE, "none", "", <<>>)>>
+      \* an expression on a variable the includer (its vars, an ancestor, the user) controls; the root's own defaults
+      \* are not visible to its own enabled field (stage 0)
+      [] id = "s7" -> <<Nd(0, "agg", "s7", <<>>, <<"eq", "flag", "on">>, <<>>, <<<<"flag", "lit", "on">>>>, FALSE, "none", "", <<>>),
+                        Nd(1, "task", "sg", <<>>, ENT, <<>>, <<>>, FALSE, "hook", "", <<>>),
+                        Nd(1, "call", "sh", <<>>, ENT, <<>>, <<>>, FALSE, "none", "", <<>>)>>
+      \* an expression on the iteration variable of the iterator that generates the include
+      [] id = "s8" -> <<Nd(0, "agg", "s8", <<>>, <<"ne", "it", "a">>, <<>>, <<>>, FALSE, "none", "", <<>>),
+                        Nd(1, "task", "si", <<"it">>, ENT, <<>>, <<>>, FALSE, "cons", "", <<>>)>>
       [] OTHER -> <<>>]
 
 (* ------------------------------ environments ---------------------------- *)
